@@ -29,6 +29,7 @@ def allowedWriteSites : List String :=
   , "SetVarFunc:index:query.options.vars"           -- the caller's VARIABLE map, which C20 requires to be written
   , "Sort:sort:slice"                               -- sorts the slice ExecSelect built (`copy := make(...)`), never `from`
   , "execUnionBranch:field:statement.With"          -- the parser's AST
+  , "resolveAsyncSlots:index:row"                   -- rows ExecSelect has just built (fresh maps of SelectExpr); called from exec only (repair D51)
   ]
 
 theorem writes_target_fresh : writeSites = allowedWriteSites := by decide
